@@ -24,6 +24,22 @@ add('C01', 'exploration',
     'Random (table, header, join table, SELECT/WHERE query) cases from a grammar over every item kind are executed by rbql.query_table / rbql.query and compared record-for-record (values, types, order, list freshness) with an independent reference interpreter; no proof of absence beyond the explored sizes.',
     TRUST, 'property-based testing (Hypothesis) against a reference interpreter', 'DESIGN.md §2 C01')
 
+add('C02', 'exploration',
+    'Random queries combining ORDER BY / DISTINCT / DISTINCT COUNT / TOP / LIMIT over duplicate-heavy tables are compared with the reference interpreter and, independently, with metamorphic relations computed from the engine outputs alone; termination is decided by running bounded streaming queries on endless input iterators under a pull budget equal to the reference bound.',
+    TRUST + ' Termination is decided with a bound on pulled records, never with a clock.', 'property-based testing (Hypothesis): reference model + metamorphic relations + pull-bounded unbounded iterators', 'DESIGN.md §2 C02')
+add('C03', 'exploration',
+    'Random aggregate / GROUP BY queries over homogeneous numeric-string, int (incl. > 2^53) and float columns are compared with an exact (Fraction) reference aggregation; integer data exactly incl. type, float data within the stated tolerance.',
+    TRUST, 'property-based testing (Hypothesis) against an exact-arithmetic reference', 'DESIGN.md §2 C03')
+add('C04', 'exploration',
+    'Random table pairs x join kinds x 1-3 key pairs x downstream shapes are compared with a nested-loop reference expansion followed by the reference semantics of the downstream query.',
+    TRUST, 'property-based testing (Hypothesis) against a nested-loop reference join', 'DESIGN.md §2 C04')
+add('C05', 'exploration',
+    'Random UPDATE queries (all target spellings, swaps / rotations, NU, WHERE, INNER/LEFT JOIN) are compared with a reference UPDATE and with an explicit frame condition (only assigned fields of qualifying records change).',
+    TRUST, 'property-based testing (Hypothesis) against a reference UPDATE + frame condition', 'DESIGN.md §2 C05')
+add('C07', 'exploration',
+    'Random select lists over every item kind x header modes x join x DISTINCT [COUNT]/TOP/GROUP BY, plus EXCEPT and UPDATE, observed through query_table, query_csv (first output line) and query_pandas_dataframe; width predicate and reference naming function on the structured query.',
+    TRUST, 'property-based testing (Hypothesis): validity predicate (width) + reference naming rule', 'DESIGN.md §2 C07')
+
 NOT_APPLICABLE = []
 ALL = ['C%02d' % i for i in range(1, 21)]
 PENDING_REASON = 'check not built yet in this revision of /verif (planned, see DESIGN.md); not claimed until it exists and is quiet on the unchanged tree'
